@@ -343,6 +343,12 @@ func (rn *c12Runner) runCase(sc *c12Scenario, plan *c12Plan, pre []wLookup, comp
 		out.corr = "worker failed"
 		return
 	}
+	if len(sc.Before) > 0 {
+		// the lookups the frame oracle compares with are those after the healthy Puts of this very run
+		if lk0, err := rn.w.call(map[string]any{"cmd": "lookups", "ids": []string{idHex(0), idHex(1), idHex(2), idHex(3)}}); err == nil {
+			pre = lk0.Lookups
+		}
+	}
 	req := map[string]any{"cmd": "put", "id": idHex(sc.ID), "data": hex.EncodeToString(sc.Data), "reader": sc.Reader, "r": sc.R}
 	if plan != nil {
 		req["plan"] = map[string]any{"k": plan.K, "kind": plan.Kind, "j": plan.J}
@@ -777,7 +783,7 @@ func runC12(f *common.Flags, res *common.Result, m *mdl) {
 			switch op.Name {
 			case "write":
 				js := []int{0, 1, op.N / 2, op.N - 1}
-				if strings.HasSuffix(op.Path, "-a") {
+				if strings.HasSuffix(op.Path, "-a") && strings.HasPrefix(sc.Name, "overwrite") {
 					// inside the id, inside the output id, right after it, inside the size and the time fields
 					js = append(js, 40, 100, 132, 133, 140, 150, 153, 160)
 				}
